@@ -378,9 +378,14 @@ def t_matrix(rng, gid, configured=None, theme=False):
 def t_simitem(rng, gid, configured=None, tag=None):
     configured = maybe(rng, 0.4) if configured is None else configured
     tag = maybe(rng, 0.65) if tag is None else tag
-    cfg = {'name': gid + '.sim', 'tag': tag, 'shared': maybe(rng, 0.4),
+    shared_res = maybe(rng, 0.4)
+    if shared_res and maybe(rng, 0.6):
+        tag = False
+    cfg = {'name': gid + '.sim', 'tag': tag, 'shared': shared_res,
            'table': {'a': {'a': 1, 'A': 0.5, 'b': 0}, 'b': {'b': 1, 'a': 0.25}, 'c': {'c': 1, 'C': 1.0 / 3}}}
     common_opts(rng, cfg)
+    if shared_res and maybe(rng, 0.6):
+        cfg['wrong_msg'] = pick(rng, ['Try again', 'Nope.\nLook at the units', 'hint for ' + gid])
     if configured:
         cfg['answers'] = answers_of(rng, ['a', 'A'], partial='b')
     return {'bp': {'id': gid, 'cls': 'SimItemGrader', 'cfg': cfg}, 'configured': configured,
